@@ -507,8 +507,8 @@ def family(kind, d, variants):
         t = [["a", [["extends", "base"], ["block", "b0", [P(1), w(["render", "a"])]]]], ["base", [P(2), ["block", "b0", [P(3)]]]]]
     elif kind == "block-include-self":
         t = [["a", [P(1), ["block", "b0", [w(["include", "a"])]]]]]
-    elif kind == "render-fanout2":
-        t = [["a", [P(1), w(["render", "a"]), ["render", "a"]]]]
+    elif kind in ("render-fanout2", "render-fanout3"):
+        t = [["a", [P(1), w(["render", "a"])] + [["render", "a"]] * (int(kind[-1]) - 1)]]
     else:
         raise ValueError(kind)
     first = t[0][0]
@@ -523,7 +523,7 @@ WRAPSETS = {"if": ["if"], "for": ["for"], "when": ["when"], "mixed": ["if", "for
 
 INSIDE_BODY = ("macro-self", "extends-block-include", "rendered-extends-block-include", "extends-block-render", "block-include-self")  # the call site is already one block level down
 MECH = {  # which counter cuts the family off
-    "render-self": "copy", "render-mutual": "copy", "render-triple": "copy", "macro-self": "copy", "extends-block-render": "copy", "render-fanout2": "copy",
+    "render-self": "copy", "render-mutual": "copy", "render-triple": "copy", "macro-self": "copy", "extends-block-render": "copy", "render-fanout2": "copy", "render-fanout3": "copy",
     "include-self": "scope", "include-mutual": "scope", "macro-include": "scope", "block-include-self": "scope",
     "extends-block-include": "copy+scope", "include-render": "disabled-tag", "rendered-extends-block-include": "disabled-tag", "extends-cycle": "seen-set", "extends-self": "seen-set",
 }
@@ -563,6 +563,10 @@ class FamilyStream(Stream):
             out.append(fam_case("render-fanout2", d, "if", "strict", False))
             for lim in ctx.scale([4, 6, 8], [4, 5, 6, 7, 8, 9, 10]):
                 out.append(fam_case("render-fanout2", d, "if", "lax", False, lim))
+            # fan-out 3: (3^(limit+2) - 1) / 2 executions (theorem lax_fanout_count)
+            out.append(fam_case("render-fanout3", d, "if", "strict", False))
+            for lim in ctx.scale([4, 5], [4, 5, 6]):
+                out.append(fam_case("render-fanout3", d, "if", "lax", False, lim))
         out.append(LAX_FANOUT_WITNESS)
         return out
 
@@ -579,7 +583,7 @@ class FamilyStream(Stream):
         return {"out": r["out"], "liquid": r.get("liquid"), "n": r.get("n"), "max_frames": r.get("max_frames"), "abs_base": r.get("abs_base")}
 
     def line_obs(self, case, obs):
-        if case["kind"] == "render-fanout2" and case["mode"] != "strict" and case["limit"] > 12:
+        if case["kind"].startswith("render-fanout") and case["mode"] != "strict" and case["limit"] > 12:
             return None  # 2^(limit+2) executions: the model is exponential here too (theorem lax_cut_counterexample)
         if not hasattr(self, "_obs"):
             self._obs = {}
@@ -624,7 +628,7 @@ class FamilyStream(Stream):
             self._model = {}
         key = jdump(case)
         if key not in self._model:
-            if case["kind"] == "render-fanout2" and case["mode"] != "strict" and case["limit"] > 12:
+            if case["kind"].startswith("render-fanout") and case["mode"] != "strict" and case["limit"] > 12:
                 return None
             from ..lean import Driver
 
@@ -822,7 +826,7 @@ RULE = (
     "Model/ParseLoops.lean which must reproduce outcome class, tokens consumed (stream.pos) and the skeleton of the tree. "
     "stream families (exhaustive over its grid): 14 self/mutually recursive families (render, include, macro, extends cycle, "
     "extends+block with include/render, block+include) x call-site block depth 0..30 x wrapper kinds x STRICT/LAX x sync/async, "
-    "default limits and default Python recursion limit, plus the fan-out-2 family; oracle: ContextDepthError / "
+    "default limits and default Python recursion limit, plus the fan-out-2 and fan-out-3 families (LAX at limits 4..10: the execution counts of lax_fanout_count); oracle: ContextDepthError / "
     "TemplateInheritanceError (LAX: ok), never RecursionError / timeout / other; model: same outcome, or RecursionError when a "
     "probe would run deeper than 1000 frames. A RecursionError is signed family|<kind>|RecursionError|<what the model's frame bound "
     "says>: frame-bound-exceeds-1000, frame-bound-within-150-of-1000, or model-says-<outcome>-below-850-frames; only the first two "
@@ -861,7 +865,8 @@ MANIFEST = {
     "nested activations at every executed statement), depth_cut_render / depth_cut_include (any self- or mutually recursive render/include family, call sites at "
     "any block depth, ends in ContextDepthError in STRICT mode), extends_cycle_cut (TemplateInheritanceError), tokens_strictly_consumed / parse_never_rewinds / "
     "case_loop_eof_raises / lax_parse_total (every parser loop pass continues on a strictly lighter stream; LAX parsing always completes), frames_bounded_partial "
-    "(<= 5 frames per activation + 7 per block level). Counter-examples proved and replayed: stack_counterexample (self-render at block depth 10 needs 1693 frames > "
+    "(<= 5 frames per activation + 7 per block level), depth_cut_call / depth_cut_block (macro and direct-block recursion), parse_steps_le_weight (all loop passes of a parse "
+    "<= weight of the token stream, potential phi), lax_fanout_count (LAX: exactly 1+f+...+f^(limit+1) executions for fan-out f). Counter-examples proved and replayed: stack_counterexample (self-render at block depth 10 needs 1693 frames > "
     "1000: RecursionError), lax_cut_counterexample (LAX mode: 2^(limit+2)-1 executions, no error).",
     "note": "Trusted: Lean kernel, the two hand models, the harness (child processes, frame probes), the measured frame constants, CPython's recursion limit. "
     "'Promptly' and 'within the stack' are runtime facts measured by the sources/families streams; 11 known findings (RecursionError x3 mechanisms, LAX fan-out hang, "
